@@ -51,7 +51,7 @@ pub fn check_bytes(enc: &'static Encoding, algo: Algo, bytes: &[u8], drv: &mut D
     // the complete stream through an output buffer that is shorter than the input (the caller loop
     // re-pushes after every OutputFull): same oracle.  Capacities vary with the length so that
     // all residues modulo the 16-unit stride occur.
-    if bytes.len() >= 6 && (bytes.len() + bytes[1] as usize + bytes[bytes.len() - 2] as usize) % 3 == 0 {
+    if (bytes.len() >= 6 && (bytes.len() + bytes[1] as usize + bytes[bytes.len() - 2] as usize) % 3 == 0) || (3..6).contains(&bytes.len()) {
         let n = bytes.len();
         // one of four variants per stream (selected by content), to keep the cost at one extra run
         let variants = [(Sink::Utf8, false, Sink::Utf8.min_cap() + (n * 7 + 3) % 29), (Sink::Utf16, true, Sink::Utf16.min_cap() + (n * 5 + 1) % 31), (Sink::Utf8, true, 17 + n % 47), (Sink::Utf16, false, 17 + (n * 3) % 47)];
@@ -59,8 +59,10 @@ pub fn check_bytes(enc: &'static Encoding, algo: Algo, bytes: &[u8], drv: &mut D
         for (sink, repl, cap) in [variants[pickv]] {
             let mut h = DecHistory::simple(enc, BomMode::None, sink, repl, bytes);
             h.caps = vec![cap];
+            // and the input in two pieces, cut at an odd offset (inside a UTF-16 code unit, usually inside a sequence)
+            h.cuts = vec![((n * 3 / 7) | 1).min(n)];
             let out = drv.run(&h);
-            let route = format!("{} -> {} through a {}-unit output buffer", if repl { "with replacement" } else { "without replacement" }, sink.name(), cap);
+            let route = format!("{} -> {} through a {}-unit output buffer, input cut at {}", if repl { "with replacement" } else { "without replacement" }, sink.name(), cap, h.cuts[0]);
             if let Some(f) = out.first_fault(&[FaultKind::Panic, FaultKind::Range, FaultKind::Valid, FaultKind::Bounds]) {
                 return Some(format!("[{}] {}", route, f.msg));
             }
@@ -427,9 +429,9 @@ fn structured(ctx: &Ctx) -> Stats {
         return total;
     }
     // UTF-16: strings of 1..=3 code units over surrogate-class units with 0-1 trailing bytes
-    const UNITS: [u16; 14] = [0x0000, 0x0041, 0x00E9, 0xD7FF, 0xD800, 0xD801, 0xDBFF, 0xDC00, 0xDC01, 0xDFFF, 0xE000, 0xFEFF, 0xFFFE, 0xFFFD];
-    let st = par_run(ctx, 2 * 14, |part, st| {
-        let be = part / 14 == 0;
+    const UNITS: [u16; 18] = [0x0000, 0x0041, 0x00E9, 0xD7FF, 0xD800, 0xD801, 0xDBFF, 0xDC00, 0xDC01, 0xDFFF, 0xE000, 0xFEFF, 0xFFFE, 0xFFFD, 0x007F, 0x0080, 0x07FF, 0x0800];
+    let st = par_run(ctx, 2 * 18, |part, st| {
+        let be = part / 18 == 0;
         let enc = if be { UTF_16BE } else { UTF_16LE };
         let algo = Algo::Utf16(be);
         let mut drv = DecDriver::new();
@@ -442,7 +444,7 @@ fn structured(ctx: &Ctx) -> Stats {
                 v.push((u >> 8) as u8);
             }
         };
-        let u0 = UNITS[part % 14];
+        let u0 = UNITS[part % 18];
         for &u1 in &UNITS {
             for &u2 in &UNITS {
                 for n in 1..=3 {
@@ -472,7 +474,7 @@ fn structured(ctx: &Ctx) -> Stats {
     });
     total.merge(st);
     if std::env::var("VERIF_TIMING").is_ok() { eprintln!("[timing] C01 structured family 7 done at {:.1}s", t_fam.elapsed().as_secs_f64()); }
-    total.exhaustive.push("UTF-16LE/BE: all strings of 1..=3 code units over 14 surrogate-class units, with 0 or 1 trailing byte".into());
+    total.exhaustive.push("UTF-16LE/BE: all strings of 1..=3 code units over 18 surrogate-class and UTF-8-length-boundary units, with 0 or 1 trailing byte".into());
     if fw::should_stop() {
         return total;
     }
